@@ -529,6 +529,11 @@ func c20RoJudge(r *Result, c c20RoCase) {
 		r.Violate(Violation{Kind: "correspondence", Suite: "mig.reorderopt", Input: c, Note: err.Error()})
 		return
 	}
+	c20RoCompare(r, c, real, outs)
+}
+
+// c20RoCompare: the model's answers (one per op of the case) against what the real code did
+func c20RoCompare(r *Result, c c20RoCase, real map[string]interface{}, outs []json.RawMessage) {
 	var mo []string
 	_ = jsonUnmarshal(outs[0], &mo)
 	sort.Strings(mo)
@@ -569,6 +574,15 @@ func c20TieReorderOpt(r *Result, rng *rand.Rand, tier string) {
 	for _, f := range c20Families {
 		fams = append(fams, f.Name)
 	}
+	// (the real code runs case by case; the model is asked ONCE for the whole batch: one driver process instead of n)
+	type pending struct {
+		c    c20RoCase
+		real map[string]interface{}
+		at   int
+		n    int
+	}
+	var pend []pending
+	var batch [][]interface{}
 	for i := 0; i < n && !expired(); i++ {
 		c := c20RoCase{Family: fams[rng.Intn(len(fams))], AutoAdd: rng.Intn(5) > 0}
 		if i < 4*len(fams) { // every family under every switch combination, whatever the seed
@@ -590,10 +604,28 @@ func c20TieReorderOpt(r *Result, rng *rand.Rand, tier string) {
 		for j := 0; j < k; j++ {
 			c.Values = append(c.Values, rng.Intn(nm))
 		}
-		c20RoJudge(r, c)
+		if real, ops, _, err := c20RoRun(c); err != nil {
+			r.H("reorderopt.skip", strings.SplitN(err.Error(), ":", 2)[0])
+		} else {
+			pend = append(pend, pending{c, real, len(batch), len(ops)})
+			batch = append(batch, ops...)
+		}
 		r.Case("mig.reorderopt", canon(c), true)
 		r.H("reorderopt.cfg", fmt.Sprintf("disableFK=%v ignoreRel=%v autoAdd=%v", c.Cfg.DisableFK, c.Cfg.IgnoreRel, c.AutoAdd))
 		r.H("reorderopt.family", c.Family)
+	}
+	if len(batch) == 0 {
+		return
+	}
+	outs, err := AskLean(batch)
+	if err != nil { // fall back to case-by-case questions so that the failing case is named
+		for _, p := range pend {
+			c20RoJudge(r, p.c)
+		}
+		return
+	}
+	for _, p := range pend {
+		c20RoCompare(r, p.c, p.real, outs[p.at:p.at+p.n])
 	}
 }
 
